@@ -168,6 +168,19 @@ def run_history(case):
                 del m_wires[info['parent']][info['name']]
                 info['parent'], info['name'] = newpar, newname
                 m_wires[newpar][newname] = wires[wi]
+            elif kind == 'dupout':
+                # a second out port of an *existing* primitive block on some wire: a second driver all the same
+                prims = [(pi, nm, o) for pi in m_children for nm, o in m_children[pi].items()
+                         if isinstance(o, Logic) and o.isPrimitive()]
+                if not prims or not wires:
+                    continue
+                pi, nm, obj = prims[op[1] % len(prims)]
+                oi = op[2] % len(wires)
+                out = wires[oi]
+                expect_raise = w_info[oi]['driver'] is not None or out.getSource() is not None
+                why = 'second driver on a wire'
+                obj.addOut('x%d' % step, out)
+                w_info[oi]['driver'] = obj
             elif kind == 'port':
                 if not wires or len(parents) < 2:
                     continue
@@ -292,6 +305,7 @@ def _op():
         st.tuples(st.just('reparent'), i, i, i).map(list),
         st.tuples(st.just('reparentAndRename'), i, i, i).map(list),
         st.tuples(st.just('port'), i, i, i).map(list),
+        st.tuples(st.just('dupout'), i, i).map(list),
     )
 
 
